@@ -17,7 +17,7 @@ COMPONENTS = {
                         "rejected operations", "states with id holes / removal history"],
 }
 ASSUMPTIONS = [
-    "partly claimed: selections are sampled per step (one node subset, one order/size list, one (order|size, up_to, keep_isolated) combination, largest component without filter), not enumerated",
+    "partly claimed: most steps sample one selection (a node subset, an order/size list, an (order|size, up_to, keep_isolated) combination, the largest component without filter); one step in a quarter (quick) / half (thorough) of the runs enumerates every node subset (<= 6 nodes, else 24 samples), every (order|size, 1..6, up_to, keep_isolated) combination and 16 order/size lists x keep_nodes on the state reached",
     "expected result computed from the source's own public observation, so a C01/C02 defect cannot masquerade as C05",
     "aliasing between an extraction and its source after later mutation is not asserted (the statement claims it for copy() only)",
     "hypergraph-level metadata of an extraction is not asserted (statement silent)",
@@ -52,7 +52,7 @@ def propose(g, model, name):
     if name == "d_subedges":
         op = {"op": name, "by": r.choice(["order", "size", None]), "up_to": r.random() < 0.5,
               "keep_iso": r.random() < 0.5}
-        s = r.randint(1, 6)
+        s = r.randint(0, 6)
         if op["by"] == "order":
             op["val"] = s - 1
         elif op["by"] == "size":
@@ -73,6 +73,13 @@ def generate(seed, tier):
     cfg["opw"]["copy"] = cfg["opw"].get("copy", 1) * 2
     cfg["length"] = min(cfg["length"], 45 if tier == "quick" else 100)
     ops, gstats = hist.generate_history(rng, cfg, extra_propose=propose)
+    if len(ops) >= 4 and rng.random() < (0.25 if tier == "quick" else 0.5):
+        # one exhaustive selection step per run, on actor 0, somewhere after the third operation
+        pos = rng.randint(3, len(ops))
+        ex = {"op": "d_exhaustive", "a": 0}
+        if len(cfg["universe"]) > 6:
+            ex["subsets"] = [rng.sample(cfg["universe"], rng.randint(0, len(cfg["universe"]))) for _ in range(24)]
+        ops.insert(pos, ex)
     return {"kind": kind, "weighted": cfg["weighted"], "universe": cfg["universe"], "seed": seed, "ops": ops}
 
 
@@ -209,8 +216,44 @@ def make_handlers(stats):
             stats["lcc_ties"] = stats.get("lcc_ties", 0) + 1
         return len(keys)
 
+    def exhaustive(w, obj, kind, c, op):
+        """Every node subset (<= 6 nodes; otherwise the given sample), every (order|size, value, up_to, keep_isolated)
+        combination and every one- and two-element list of sizes / orders, on the state the history has reached."""
+        import itertools
+
+        n = 0
+        nodes = sorted(c["nodes"], key=tag)
+        if kind == "H":
+            if len(nodes) <= 6:
+                subsets = [list(s) for k in range(len(nodes) + 1) for s in itertools.combinations(nodes, k)]
+            else:
+                subsets = [[x for x in sub if x in c["nodes"]] for sub in op.get("subsets", [])]
+            for sub in subsets:
+                subnodes(w, obj, kind, c, {"nodes": sub})
+                n += 1
+            for by in ("sizes", "orders"):
+                for vals in [[v] for v in range(1, 7)] + [[a, b] for a in range(1, 6) for b in range(a + 1, 7)][:10]:
+                    for keep in (None, True, False):
+                        o2 = {"by": by, "vals": [v - (1 if by == "orders" else 0) for v in vals]}
+                        if keep is not None:
+                            o2["keep_nodes"] = keep
+                        suborders(w, obj, kind, c, o2)
+                        n += 1
+        for by in ("size", "order"):
+            for val in range(0, 7):
+                for up in (False, True):
+                    for iso in (False, True):
+                        subedges(w, obj, kind, c, {"by": by, "val": val - (1 if by == "order" else 0), "up_to": up, "keep_iso": iso})
+                        n += 1
+        for iso in (False, True):
+            subedges(w, obj, kind, c, {"by": None, "up_to": False, "keep_iso": iso})
+            n += 1
+        stats["exhaustive_steps"] = stats.get("exhaustive_steps", 0) + 1
+        stats["exhaustive_selections"] = stats.get("exhaustive_selections", 0) + n
+        return n
+
     return {"d_subnodes": wrap(subnodes), "d_suborders": wrap(suborders), "d_subedges": wrap(subedges),
-            "d_lcc": wrap(lcc)}
+            "d_lcc": wrap(lcc), "d_exhaustive": wrap(exhaustive)}
 
 
 def execute(case):
